@@ -68,7 +68,9 @@ func genHandled(e *emitter, r *rng.R, n int, tier string) {
 	}{{"local", true}, {"peers", true}, {"peers_v2", true}, {"schema_keyspaces", true}, {"schema_columnfamilies", true}, {"schema_columns", true}, {"schema_usertypes", true},
 		{"LOCAL", true}, {"Peers", true}, {"\"local\"", true}, {"\"peers\"", true}, {"\"Local\"", false}, {"\"PEERS\"", false},
 		{"locals", false}, {"local_", false}, {"peers_v3", false}, {"users", false}, {"t", false}, {"schema_keyspace", false}, {"size_estimates", false}}
-	sels := []string{"*", "key", "key, rpc_address", "count(*)", "COUNT(key)", "now()", "key AS k, count(*) AS c", "peer, data_center, tokens", "\"from\"", "a, b, c", "*, key"}
+	sels := []string{"*", "key", "key, rpc_address", "count(*)", "COUNT(key)", "now()", "key AS k, count(*) AS c", "peer, data_center, tokens", "\"from\"", "a, b, c", "*, key",
+		// selector lists holding what the scanner has no token for: the table decides, not the selectors
+		"/* probe */ *", "key / 2", "a % b, c", "~x, key", "key, /* c */ peer", "@ # !"}
 	rests := []string{"", " WHERE key = 'local'", " where peer = '127.0.0.1' ALLOW FILTERING", " LIMIT 1", ";", " WHERE key IN ('a', 'b') AND x = now()"}
 	emit := func(cur struct {
 		text     string
